@@ -283,7 +283,7 @@ def truthy_container(c, o):
 
 def registry_ok(c, R, which='_adapters', wf=None):
     """representation invariant of one registry as far as the searches rely on it"""
-    wf = wf or wfn
+    wf = wfn if wf is None else wf
     o = z3.Int('ro_o')
     p = z3.Const('ro_p', Obj)
     bo = byorder_of(c, R, which)
@@ -299,7 +299,7 @@ def registry_ok(c, R, which='_adapters', wf=None):
 def chain_ok(c, which='_adapters', wf=None):
     k = z3.Int('ch_k')
     ro = c.h('ro')[c.h('_registry')[c.a.self]]
-    return z3.ForAll([k], z3.Implies(z3.And(0 <= k, k < L(ro)), registry_ok(c, ro[k], which, wf)))
+    return z3.ForAll([k], z3.Implies(z3.And(0 <= k, k < L(ro)), registry_ok(c, ro[k], which, wf)), patterns=[ro[k]])
 
 
 def ul_hit(c, k, required, order):
@@ -420,3 +420,211 @@ reg.add(Proc(
                                      ('remembered-specifications-are-subscribed-ones', refs_inv(c))],
     loops={'L0': Loop(_ul_loop)},
 ))
+
+
+# ------------------------------------------------------------------ AdapterLookupBase._uncached_subscriptions  (C07, C06)
+# Statement of C07: subscribers of base registries precede those of derived registries.  The registry's resolution order lists
+# the registry itself first and its bases after it, so the walk goes through reversed(ro); every registry contributes what
+# _subscriptions (verified above) appends for its subscriber tree of the right order.
+HT = z3.Const('heap_token_usubs', Obj)
+contrib = z3.Function('subscriptions_contributed_by_chain_member', Obj, I_, SeqO)      # (entry-heap token, index into ro)
+usubs = z3.Function('subscriptions_of_the_last_n_chain_members', Obj, I_, I_, SeqO)    # (token, len(ro), n)
+_un, _ul = z3.Ints('us_n us_l')
+reg.axiom('usubs-0', z3.ForAll([_ul], usubs(HT, _ul, 0) == Empty(SeqO), patterns=[usubs(HT, _ul, 0)]))
+reg.axiom('usubs-step', z3.ForAll([_ul, _un], z3.Implies(z3.And(0 <= _un, _un < _ul),
+          usubs(HT, _ul, _un + 1) == Concat(usubs(HT, _ul, _un), contrib(HT, _ul - 1 - _un))), patterns=[usubs(HT, _ul, _un + 1)]))
+
+
+def containers_exist(c, which):
+    """the by-order lists of the chain members and their extendors lists are objects that exist at entry (so that a list created
+    by the search is none of them)"""
+    k = z3.Int('ce_k')
+    p = z3.Const('ce_p', Obj)
+    ro = c.h('ro')[c.h('_registry')[c.a.self]]
+    R = ro[k]
+    e = c.h('_extendors')[c.h('_v_lookup')[R]]
+    v = c.h('$dict')[e][p]
+    return z3.ForAll([k], z3.Implies(z3.And(0 <= k, k < L(ro)), z3.And(
+        c.h('$alloc')[c.h(which)[R]], c.h('$alloc')[e], z3.ForAll([p], z3.Implies(z3.And(v != ABSENT, is_list(v)), c.h('$alloc')[v]), patterns=[v]))), patterns=[ro[k]])
+
+
+def tree_nodes_exist(c):
+    """dictionaries that are nodes of a registration tree exist at entry (a mapping created by the search is no tree node)"""
+    o = z3.Const('tn_o', Obj)
+    return ForAllP([o], z3.Implies(in_tree(o), c.h('$alloc')[o]), [in_tree(o)])
+
+
+def _usub_contrib(c, k):
+    """what chain member ro[k] contributes, on the heap at entry"""
+    c0 = _at_entry(c)
+    req = c.a.required
+    order = L(req)
+    R = c.h0('ro')[c.h0('_registry')[c.a.self]][k]
+    bo = c.h0('$list')[c.h0('_subscribers')[R]]
+    e = g(c.h0('$dict'), c.h0('_extendors')[c.h0('_v_lookup')[R]], c.a.provided)
+    handlers = c.a.provided == NONE
+    ext_seq = z3.If(handlers, Unit(NONE), z3.If(is_seq(e), unbox_seq(e), c.h0('$list')[e]))
+    applicable = z3.And(order < L(bo), z3.Or(handlers, e != NONE))
+    return z3.If(applicable, subs(treeview(c.h0('$dict')), c.h0('__sro__'), bo[order], req, ext_seq, box_name(EMPTYNAME), 0, order), Empty(SeqO))
+
+
+def _usub_ghost(c):
+    k = z3.Int('ug_k')
+    return [z3.ForAll([k], contrib(HT, k) == _usub_contrib(c, k), patterns=[contrib(HT, k)])]
+
+
+def _usub_loop(c):
+    ro = c.h0('ro')[c.h0('_registry')[c.a.self]]
+    res = c.l.result
+    o = z3.Const('ul_o', Obj)
+    return [('result-is-what-the-chain-members-visited-so-far-contribute', SeqEq(c.h('$list')[res], usubs(HT, L(ro), c.i))),
+            ('only-the-result-list-changes', z3.And(c.h('$dict') == c.h0('$dict'), c.h('$subscribed') == c.h0('$subscribed'),
+                                                    ForAllP([o], z3.Implies(c.h0('$alloc')[o], c.h('$list')[o] == c.h0('$list')[o]), [c.h('$list')[o]]))),
+            ('the-result-list-is-new', z3.And(z3.Not(c.h0('$alloc')[res]), c.h('$alloc')[res])),
+            ('fields-unchanged', z3.And(c.h('ro') == c.h0('ro'), c.h('_registry') == c.h0('_registry'), c.h('_subscribers') == c.h0('_subscribers'),
+                                        c.h('_required') == c.h0('_required')))]
+
+
+def _usub_post(c):
+    ro = c.h0('ro')[c.h0('_registry')[c.a.self]]
+    o = z3.Const('up_o', Obj)
+    return [('base-registries-first-then-derived-each-least-specific-first', SeqEq(c.h('$list')[c.res], usubs(HT, L(ro), L(ro)))),
+            ('listens-to-every-required-specification', subscribed_to_all(c, c.a.required)),
+            ('remembered-specifications-are-subscribed-ones', refs_inv(c)),
+            ('existing-lists-unchanged', ForAllP([o], z3.Implies(c.h0('$alloc')[o], c.h('$list')[o] == c.h0('$list')[o]), [c.h('$list')[o]]))]
+
+
+reg.add(Proc(
+    A + 'AdapterLookupBase._uncached_subscriptions', [('self', OBJ), ('required', SEQO), ('provided', OBJ)],
+    source='adapter.py:AdapterLookupBase._uncached_subscriptions', result=LISTO, locals={'$containers': True, 'result': LISTO},
+    calls={'_subscriptions': A + '_subscriptions', 'self._subscribe': A + 'AdapterLookupBase._subscribe'},
+    ghost_pre=_usub_ghost,
+    requires=lambda c: [('chain-well-formed', chain_ok(c, '_subscribers', wfs)),
+                        ('the-containers-of-the-chain-exist', containers_exist(c, '_subscribers')),
+                        ('own-bookkeeping-is-not-a-tree-node', z3.Not(in_tree(c.h('_required')[c.a.self]))),
+                        ('remembered-specifications-are-subscribed-ones', refs_inv(c)),
+                        ('the-bookkeeping-mapping-exists', z3.And(c.h('_required')[c.a.self] != NONE, is_dict(c.h('_required')[c.a.self])))],
+    modifies=['$dict', '$subscribed', '$list', '$alloc'],
+    ensures=_usub_post, loops={'L0': Loop(_usub_loop)},
+))
+
+
+# ------------------------------------------------------------------ AdapterLookupBase._uncached_lookupAll  (C08, C06)
+# The same walk for named adapters: base registries first, so that a registration of a derived registry (visited later)
+# overrides an equally named one of a base; inside one registry _lookupAll (verified above) lets the most specific win.
+HTA = z3.Const('heap_token_uall', Obj)
+uall = z3.Function('named_adapters_after_the_last_n_chain_members', Obj, I_, I_, MS)       # (token, len(ro), n) -> name -> value
+uall_step = z3.Function('named_adapters_chain_member_applied', Obj, I_, MS, MS)             # (token, index into ro, map so far)
+_am0 = z3.Const('ua_m', MS)
+reg.axiom('uall-0', z3.ForAll([_ul], uall(HTA, _ul, 0) == EMPTYMAP, patterns=[uall(HTA, _ul, 0)]))
+reg.axiom('uall-step', z3.ForAll([_ul, _un], z3.Implies(z3.And(0 <= _un, _un < _ul),
+          uall(HTA, _ul, _un + 1) == uall_step(HTA, _ul - 1 - _un, uall(HTA, _ul, _un))), patterns=[uall(HTA, _ul, _un + 1)]))
+
+
+def _uall_apply(c, k, m):
+    req = c.a.required
+    order = L(req)
+    R = c.h0('ro')[c.h0('_registry')[c.a.self]][k]
+    bo = c.h0('$list')[c.h0('_adapters')[R]]
+    e = g(c.h0('$dict'), c.h0('_extendors')[c.h0('_v_lookup')[R]], c.a.provided)
+    ext_seq = z3.If(is_seq(e), unbox_seq(e), c.h0('$list')[e])
+    nonempty = z3.If(is_list(e), L(c.h0('$list')[e]) > 0, z3.If(is_seq(e), L(unbox_seq(e)) > 0, z3.BoolVal(False)))
+    applicable = z3.And(order < L(bo), nonempty)
+    return z3.If(applicable, allmap(treeview(c.h0('$dict')), c.h0('__sro__'), bo[order], req, ext_seq, 0, order, m), m)
+
+
+def _uall_ghost(c):
+    k = z3.Int('ag_k')
+    m = z3.Const('ag_m', MS)
+    return [z3.ForAll([k, m], uall_step(HTA, k, m) == _uall_apply(c, k, m), patterns=[uall_step(HTA, k, m)])]
+
+
+def _uall_loop(c):
+    ro = c.h0('ro')[c.h0('_registry')[c.a.self]]
+    res = c.l.result
+    o = z3.Const('al_o', Obj)
+    return [('result-holds-the-named-adapters-of-the-chain-members-visited-so-far', c.h('$dict')[res] == uall(HTA, L(ro), c.i)),
+            ('only-the-result-mapping-changes', z3.And(c.h('$list') == c.h0('$list'), c.h('$subscribed') == c.h0('$subscribed'),
+                                                       ForAllP([o], z3.Implies(c.h0('$alloc')[o], c.h('$dict')[o] == c.h0('$dict')[o]), [c.h('$dict')[o]]))),
+            ('the-result-mapping-is-new', z3.And(z3.Not(c.h0('$alloc')[res]), c.h('$alloc')[res], z3.Not(in_tree(res)), is_dict(res))),
+            ('the-registration-trees-are-unchanged', treeview(c.h('$dict')) == treeview(c.h0('$dict'))),
+            ('fields-unchanged', z3.And(c.h('ro') == c.h0('ro'), c.h('_registry') == c.h0('_registry'), c.h('_adapters') == c.h0('_adapters'),
+                                        c.h('_required') == c.h0('_required'), c.h('_extendors') == c.h0('_extendors'), c.h('_v_lookup') == c.h0('_v_lookup')))]
+
+
+def _uall_post(c):
+    ro = c.h0('ro')[c.h0('_registry')[c.a.self]]
+    return [('derived-registries-override-base-registries-name-by-name', c.res == uall(HTA, L(ro), L(ro))),
+            ('listens-to-every-required-specification', subscribed_to_all(c, c.a.required)),
+            ('remembered-specifications-are-subscribed-ones', refs_inv(c))]
+
+
+reg.add(Proc(
+    A + 'AdapterLookupBase._uncached_lookupAll', [('self', OBJ), ('required', SEQO), ('provided', OBJ)],
+    source='adapter.py:AdapterLookupBase._uncached_lookupAll', result=Ty('items'), locals={'$containers': True, 'result': DICT},
+    calls={'_lookupAll': A + '_lookupAll', 'self._subscribe': A + 'AdapterLookupBase._subscribe'},
+    ghost_pre=_uall_ghost,
+    requires=lambda c: [('chain-well-formed', chain_ok(c)),
+                        ('the-containers-of-the-chain-exist', containers_exist(c, '_adapters')),
+                        ('every-tree-node-exists', tree_nodes_exist(c)),
+                        ('own-bookkeeping-is-not-a-tree-node', z3.Not(in_tree(c.h('_required')[c.a.self]))),
+                        ('remembered-specifications-are-subscribed-ones', refs_inv(c)),
+                        ('the-bookkeeping-mapping-exists', z3.And(c.h('_required')[c.a.self] != NONE, is_dict(c.h('_required')[c.a.self]),
+                                                                  c.h('$alloc')[c.h('_required')[c.a.self]]))],
+    modifies=['$dict', '$subscribed', '$alloc'],
+    ensures=_uall_post, loops={'L0': Loop(_uall_loop)},
+))
+
+
+# ------------------------------------------------------------------ AdapterLookupBase.changed: forget (and unsubscribe from) everything remembered
+DEREF = z3.Function('referent_of_weak_reference', Obj, Obj)          # r(): the specification, or None once it is gone
+reg.axiom('a-live-weak-reference-yields-its-referent', z3.ForAll([_wa], z3.Or(DEREF(WR(_wa)) == _wa, DEREF(WR(_wa)) == NONE), patterns=[DEREF(WR(_wa))]))
+FIELDS.update({'$base_changed': z3.ArraySort(Obj, z3.IntSort())})
+reg.fields.update(FIELDS)
+
+
+def _super_changed(ex, node, st):
+    """super().changed(None): LookupBase.changed / VerifyingBase.changed (verified under C09 / C06): the caches are emptied"""
+    s = ex.args['self'].t
+    g_ = st.heap.get('$base_changed')
+    st.heap.set('$base_changed', z3.Store(g_, s, z3.Select(g_, s) + 1))
+    return [(st, VNONE)]
+
+
+def _deref(ex, node, st, vals):
+    return [(st, vobj(DEREF(vals[0].t)))]
+
+
+reg.add(Proc(A + 'virtual.specification_unsubscribe', [('self', OBJ), ('dependent', OBJ)], modifies=['$subscribed'],
+             ensures=lambda c: [ForAllP([z3.Const('vu_l', Obj), z3.Const('vu_s', Obj)], z3.Implies(
+                 z3.Not(z3.And(z3.Const('vu_l', Obj) == c.a.dependent, z3.Const('vu_s', Obj) == c.a.self)),
+                 c.h('$subscribed')[z3.Const('vu_l', Obj)][z3.Const('vu_s', Obj)] == c.h0('$subscribed')[z3.Const('vu_l', Obj)][z3.Const('vu_s', Obj)]),
+                 [c.h('$subscribed')[z3.Const('vu_l', Obj)][z3.Const('vu_s', Obj)]])],
+             note='Specification.unsubscribe(dependent) (verified under C02): nobody else\'s subscription is touched'))
+
+
+def _alc_loop(c):
+    l, sp_ = z3.Consts('cl_l cl_s', Obj)
+    return [('only-the-own-subscriptions-change', ForAllP([l, sp_], z3.Implies(l != c.a.self, c.h('$subscribed')[l][sp_] == c.h0('$subscribed')[l][sp_]),
+                                                          [c.h('$subscribed')[l][sp_]])),
+            ('mappings-untouched-so-far', c.h('$dict') == c.h0('$dict')),
+            ('base-class-invalidation-ran-once', c.h('$base_changed')[c.a.self] == c.h0('$base_changed')[c.a.self] + 1)]
+
+
+reg.add(Proc(A + 'AdapterLookupBase.changed', [('self', OBJ), ('ignored', OBJ)], source='adapter.py:AdapterLookupBase.changed',
+             defaults={'ignored': VNONE}, opaque_calls={'r': _deref},
+             calls={'r.unsubscribe': A + 'virtual.specification_unsubscribe', 'super().changed': _super_changed},
+             locals={'$containers': True},
+             modifies=['$dict', '$subscribed', '$base_changed'],
+             requires=lambda c: [('the-bookkeeping-mapping-exists', z3.And(c.h('_required')[c.a.self] != NONE, is_dict(c.h('_required')[c.a.self])))],
+             ensures=lambda c: [('nothing-is-remembered-any-more', c.h('$dict')[c.h('_required')[c.a.self]] == EMPTYMAP),
+                                ('remembered-specifications-are-subscribed-ones', refs_inv(c)),
+                                ('the-caches-are-emptied-by-the-base-class', c.h('$base_changed')[c.a.self] == c.h0('$base_changed')[c.a.self] + 1),
+                                ('only-the-own-bookkeeping-mapping-is-written', ForAllP([z3.Const('ac_o', Obj)], z3.Implies(
+                                    z3.Const('ac_o', Obj) != c.h0('_required')[c.a.self],
+                                    c.h('$dict')[z3.Const('ac_o', Obj)] == c.h0('$dict')[z3.Const('ac_o', Obj)]), [c.h('$dict')[z3.Const('ac_o', Obj)]])),
+                                ('nobody-else-is-unsubscribed', ForAllP([z3.Const('ac_l', Obj), z3.Const('ac_s', Obj)], z3.Implies(
+                                    z3.Const('ac_l', Obj) != c.a.self,
+                                    c.h('$subscribed')[z3.Const('ac_l', Obj)][z3.Const('ac_s', Obj)] == c.h0('$subscribed')[z3.Const('ac_l', Obj)][z3.Const('ac_s', Obj)]),
+                                    [c.h('$subscribed')[z3.Const('ac_l', Obj)][z3.Const('ac_s', Obj)]]))],
+             loops={'L0': Loop(_alc_loop)}))
